@@ -1737,9 +1737,9 @@ Example ex_private_shared :
 Proof. vm_compute. repeat split. Qed.
 
 (* the script interface reproduces traces recorded from the implementation
-   (harness/src/bin/c10.rs on corpus scripts 1, 4, 9, 15 and 17 of gen/c10.py; 4 = LFU tie, oracle appended;
+   (harness/src/bin/c10.rs on corpus scripts 1, 4, 9, 15 and 23 of gen/c10.py; 4 = LFU tie, oracle appended;
     9 = ttl 1500 us: served at 1500 us, expired at 1501 us and at 1900 us; 15 = nanosecond clock, ttl 1500 ns:
-    served at 1500 ns, expired at 1501 ns and at 1999 ns; 17 = keys 119, 120, 200, 239 in two stores) *)
+    served at 1500 ns, expired at 1501 ns and at 1999 ns; 23 = keys 119, 120, 200, 239 in two stores) *)
 Example ex_recorded_ttl :
   run_script
     [0; 2; 20; 0; 4; 9; 0; 0; 3; 4; 0; 7; 1; 0; 0; 3; 20; 0; 0; 1; 3; 1; 1; 0; 3; 1; 0; 0; 2;
@@ -1817,4 +1817,36 @@ Example ex_recorded_wide_keys :
      664613997892457936451903530140172288; 1208925819614629174706176; 0; 1; 0; 0; 0; 1; 0;
      664613997892457936451903530140172288; 1208925819614629174706176; 0; 1;
      664613997892457936451903530140172288; 1208925819614629174706176; 0; 1].
+Proof. vm_compute. reflexivity. Qed.
+
+(* corpus script 22: FIFO, max_size = usize::MAX/2, shared store: the layer builds (fix b8ecd4c), nothing is evicted *)
+Example ex_recorded_usize_max :
+  run_script
+    [2; 9223372036854775807; -1; 1; 11; 28; 7; 0; 124; 4; 0; 301; 1; 0; 0; 7; 1; 20; 4; 1; 302;
+     1; 1; 0; 7; 2; 20; 4; 2; 303; 1; 2; 0; 7; 3; 333; 4; 3; 0; 1; 3; 0; 7; 4; 833; 4; 4; 305;
+     1; 4; 0; 7; 5; 788; 4; 5; 306; 1; 5; 0; 7; 6; 124; 1; 6; 0; 7; 7; 65; 1; 7; 0; 7; 8; 20;
+     1; 8; 0; 7; 9; 77; 1; 9; 0; 7; 10; 86; 1; 10; 0; -1; -1; -1; -1; -1; -1; -1; -1; -1; -1;
+     -1; -1; -1; -1; -1; -1; -1; -1; -1; -1; -1; -1; -1; -1; -1; -1; -1; -1]
+  = [-1; 0; 1; 1; 2; 0; 0; 0; 0; 0; 0; 0; 0; -1; 0; 0; 1; 0; 0; 0; 0; 0; 0; 0; 0; 0; 1; 301; 0;
+     0; 0; 0; 16; 0; 0; 0; 16; 0; 0; -1; 0; 1; 1; 2; 0; 16; 0; 0; 0; 16; 0; 0; -1; 0; 0; 1; 0;
+     0; 16; 0; 0; 0; 16; 0; 0; 1; 302; 0; 0; 0; 1048576; 16; 0; 0; 1048576; 16; 0; 0; -1; 0; 0;
+     0; 1; 1048576; 16; 0; 0; 1048576; 16; 0; 0; -1; 0; 0; 0; 0; 1048576; 16; 0; 0; 1048576;
+     16; 0; 0; 1; 302; 0; 0; 0; 1048576; 16; 0; 0; 1048576; 16; 0; 0; -1; 0; 1; 1; 2; 1048576;
+     16; 0; 0; 1048576; 16; 0; 0; -1; 0; 0; 1; 0; 1048576; 16; 0; 0; 1048576; 16; 0; 0; 2; 0;
+     0; 0; 0; 1048576; 16; 0; 0; 1048576; 16; 0; 0; -1; 0; 1; 1; 2; 1048576; 16; 0; 0; 1048576;
+     16; 0; 0; -1; 0; 0; 1; 0; 1048576; 16; 0; 0; 1048576; 16; 0; 0; 1; 305; 0; 0; 0;
+     36893488147420151808; 16; 0; 0; 36893488147420151808; 16; 0; 0; -1; 0; 0; 0; 1;
+     36893488147420151808; 16; 0; 0; 36893488147420151808; 16; 0; 0; -1; 0; 0; 0; 0;
+     36893488147420151808; 16; 0; 0; 36893488147420151808; 16; 0; 0; 1; 302; 0; 0; 0;
+     36893488147420151808; 16; 0; 0; 36893488147420151808; 16; 0; 0; -1; 0; 0; 0; 1;
+     36893488147420151808; 16; 0; 0; 36893488147420151808; 16; 0; 0; 1; 301; 0; 0; 0;
+     36893488147420151808; 16; 0; 0; 36893488147420151808; 16; 0; 0; -1; 0; 0; 0; 1;
+     36893488147420151808; 16; 0; 0; 36893488147420151808; 16; 0; 0; 1; 305; 0; 0; 0;
+     36893488147420151808; 16; 0; 0; 36893488147420151808; 16; 0; 0; -1; 0; 0; 0; 1;
+     36893488147420151808; 16; 0; 0; 36893488147420151808; 16; 0; 0; 1; 302; 0; 0; 0;
+     36893488147420151808; 16; 0; 0; 36893488147420151808; 16; 0; 0; -1; 0; 1; 1; 2;
+     36893488147420151808; 16; 0; 0; 36893488147420151808; 16; 0; 0; 0; 0; 0; 1; 0;
+     36893488147420151808; 16; 0; 0; 36893488147420151808; 16; 0; 0; -1; 0; 1; 2; 2;
+     36893488147420151808; 16; 0; 0; 36893488147420151808; 16; 0; 0; 0; 0; 0; 2; 0;
+     36893488147420151808; 16; 0; 0; 36893488147420151808; 16; 0; 0].
 Proof. vm_compute. reflexivity. Qed.
